@@ -115,6 +115,7 @@ type vSink struct {
 	fsEnd     int
 	typ       string
 	rejected1 []string // ids of single-entity calls the sink rejected, in call order
+	failAll   bool     // every call fails, also one with an empty batch (a sink whose target is gone)
 }
 
 func (s *vSink) GetConfig() map[string]interface{} {
@@ -132,6 +133,12 @@ func (s *vSink) endFullSync(ctx context.Context, runner *Runner) error {
 func (s *vSink) processEntities(runner *Runner, entities []*server.Entity) error {
 	call := s.calls
 	s.calls++
+	if s.failAll {
+		if len(entities) == 1 {
+			s.rejected1 = append(s.rejected1, entities[0].ID)
+		}
+		return errors.New("sink target does not exist")
+	}
 	if call == s.failBatch {
 		if len(entities) == 1 {
 			s.rejected1 = append(s.rejected1, entities[0].ID)
